@@ -126,12 +126,19 @@ func ruleOneReader(c *Ctx) {
 					for _, r3 := range *b.Referrers() {
 						if iff, ok := r3.(*ssa.If); ok {
 							found = true
-							okc = g.Cut[iff.Block().Succs[0]] >= 0
+							arm := iff.Block().Succs[0]
+							okc = g.Cut[arm] >= 0
+							// or the helper declines: returns (…, false) so that the caller compiles the literal itself
+							if ret, isRet := arm.Instrs[len(arm.Instrs)-1].(*ssa.Return); isRet && len(ret.Results) == 2 {
+								if b, isc := constBool(ret.Results[1]); isc && !b {
+									okc = true
+								}
+							}
 						}
 					}
 				}
 			}
-			c.check(found && okc, R, "compiler-error-raises:"+name, p.ipos(cl), "a malformed numeral raises a compile error", "a numeral the reader rejects (e.g. 1ex) is silently replaced by a constant (NaN) instead of being a syntax error")
+			c.check(found && okc, R, "compiler-error-raises:"+name, p.ipos(cl), "a malformed numeral raises a compile error (or the folding helper declines it)", "a numeral the reader rejects (e.g. 1ex) is silently replaced by a constant (NaN) instead of being a syntax error")
 		}
 	}
 }
